@@ -13,6 +13,8 @@ A program is a list of nodes (JSON):
                                           bindings; `after` runs in the creator before deref
   ["boundfn", body]                       bound-fn run on a fresh thread, joined
   ["pmap", n, body]                       (doall (pmap (fn [i] body) (range n)))
+  ["bflocal", body, after]                bound-fn created, creator runs `after`, then calls it
+                                          on the SAME thread: it must still see creation-time values
 
 The model computes, for every probe id, the triple a correct implementation must
 observe: a concrete value where the Var is thread-bound, ROOT where the root is read.
@@ -99,6 +101,14 @@ class Model:
             child = [dict(self.flat(env))]
             cctx = {"kind": "conveyed", "failed": [False]}
             self.run(n[1], child, cctx)      # may raise: propagates to the creator at join
+        elif t == "bflocal":
+            snap = dict(self.flat(env))          # captured where the bound-fn is created
+            self.run(n[2], env, ctx)             # creator carries on (may set!, leave scopes)
+            env.append(snap)                     # ... then calls it on the same thread
+            try:
+                self.run(n[1], env, ctx)
+            finally:
+                env.pop()
         elif t == "pmap":
             err = None
             for _ in range(n[1]):
@@ -168,6 +178,10 @@ def _emit(n):
         return f"(let [{nm} (future {emit(n[1])})] {emit(n[2])} (deref {nm}))"
     if t == "boundfn":
         return f"(run-thread! (bound-fn [] {emit(n[1])}))"
+    if t == "bflocal":
+        _ctr[0] += 1
+        nm = f"bf_{_ctr[0]}"
+        return f"(let [{nm} (bound-fn [] {emit(n[1])})] {emit(n[2])} ({nm}))"
     if t == "pmap":
         return f"(doall (pmap (fn [_i] {emit(n[2])}) (range {n[1]})))"
     raise ValueError(t)
